@@ -24,6 +24,7 @@ R.cls("ProgressTracker", fields={"problem": "Problem", "evaluator": "Evaluator",
 R.cls("SingleObjectiveProgressTracker", bases=["ProgressTracker"], fields={"best_individual": "Individual?"}, file=TRK)
 R.cls("MultiObjectiveProgressTracker", bases=["ProgressTracker"], fields={"pareto_front": "list[Individual]"}, file=TRK)
 
+R.disjoint.add(("SingleObjectiveProgressTracker", "MultiObjectiveProgressTracker"))  # no tracker class inherits from both
 # class invariant of the single-objective tracker over the ghost history
 T_OK = {
     "hist_evaluated": "forall(0, len(self.hist), lambda h: self.problem in self.hist[h].fitness_store)",
@@ -33,16 +34,20 @@ T_OK = {
 }
 R.contract(
     "SearchRecorder.register",
-    params=dict(self="SearchRecorder", tracker="SingleObjectiveProgressTracker", individual="Individual", problem="Problem", is_best="bool"),
+    params=dict(self="SearchRecorder", tracker="ProgressTracker", individual="Individual", problem="Problem", is_best="bool"),
     returns="None",
     requires={
-        "registered_individual_is_latest": "len(tracker.hist) >= 1 and same(tracker.hist[len(tracker.hist) - 1], individual) and same(problem, tracker.problem)",
-        "flag_iff_first_or_strict_improvement": "iff(is_best, forall(0, len(tracker.hist) - 1, lambda h: "
-        + agg("individual", "problem") + " > " + agg("tracker.hist[h]", "problem") + "))",
+        "registered_individual_is_latest": "implies(isinstance(tracker, SingleObjectiveProgressTracker), "
+        "len(tracker.hist) >= 1 and same(tracker.hist[len(tracker.hist) - 1], individual) and same(problem, tracker.problem))",
+        "flag_iff_first_or_strict_improvement": "implies(isinstance(tracker, SingleObjectiveProgressTracker), iff(is_best, forall(0, len(tracker.hist) - 1, lambda h: "
+        + agg("individual", "problem") + " > " + agg("tracker.hist[h]", "problem") + ")))",
+        "multi_objective_flag_means_best_aggregate_so_far": "implies(isinstance(tracker, MultiObjectiveProgressTracker) and is_best, same(problem, tracker.problem) and "
+        "forall(0, len(tracker.hist), lambda h: " + agg("individual", "problem") + " >= " + agg("tracker.hist[h]", "problem") + "))",
     },
     modifies=["class:SearchRecorder"],
     verify=False,
-    note="interface of every recorder; its precondition IS the property clause 'told is_best exactly when first or strictly better than all earlier'",
+    note="interface of every recorder; its precondition IS the property clause: single-objective trackers flag is_best exactly when the individual is the first "
+    "or strictly better than all earlier ones; multi-objective trackers flag only individuals that attain the best aggregate seen so far",
 )
 R.contract(
     "SingleObjectiveProgressTracker.post_process",
@@ -181,7 +186,7 @@ SEARCH_REQ = {**t_ok("self.tracker"), "same_problem": "same(self.tracker.problem
               "separate_objects": "not same(self.tracker.evaluator, self.budget)"}
 
 
-def search_contract(key, file, batch, extra_req=None, loops=None, extra_fields=None):
+def search_contract(key, file, batch, extra_req=None, loops=None, extra_fields=None, locals_=None, ghost_entry=""):
     R.contract(
         f"{key}.search",
         file=file,
@@ -196,6 +201,8 @@ def search_contract(key, file, batch, extra_req=None, loops=None, extra_fields=N
             **t_ok("self.tracker"),
         },
         loops=loops,
+        locals=locals_ or {},
+        ghost_entry=ghost_entry,
         modifies=["self.tracker.best_individual", "self.tracker.hist[]", "class:SearchRecorder", "self.tracker.evaluator.count",
                   "self.problem.ff.fn.ncalls", "all:dict[Problem,Fitness]", "all:field:phenotype", "self.random.*"],
         props=["C12", "C14"],
@@ -226,4 +233,76 @@ search_contract(
     extra_req={"representation_mutates": "isinstance(self.representation, RepresentationWithMutation)"},
     loops={0: Loop(invariants={k: v.format(batch=1) for k, v in LOOP_INV.items()}, modifies=LOOP_MOD,
                    decreases="self.budget.evaluations_budget - self.tracker.evaluator.count")},
+)
+
+# ---- hill climbing: same loop contract, batch = neighbourhood size ------------------------------------------------------
+HC_BATCH = "self.number_of_mutations"
+search_contract(
+    "HC", HCF, HC_BATCH,
+    extra_req={"representation_mutates": "isinstance(self.representation, RepresentationWithMutation)",
+               "some_neighbours": "self.number_of_mutations >= 1"},
+    loops={0: Loop(invariants={**{k: v.format(batch=HC_BATCH) for k, v in LOOP_INV.items()},
+                               "neighbourhood_size_unchanged": "self.number_of_mutations == old(self.number_of_mutations)",
+                               "first_individual_kept": "implies(current_ind is not None, ind is not None)"},
+                   modifies=LOOP_MOD,
+                   decreases="self.budget.evaluations_budget - self.tracker.evaluator.count")},
+    locals_={"current_ind": "Individual?", "ind": "Individual?"},
+    ghost_entry="ind = None",  # `ind` is unbound until the first iteration: modelled as None, so reading it is a not-None obligation
+)
+
+# ---- multi-objective tracker: every member of the reported front attains the best aggregate seen so far (C12) ----------
+TM_OK = {
+    "hist_evaluated": "forall(0, len(self.hist), lambda h: self.problem in self.hist[h].fitness_store)",
+    "front_empty_iff_nothing_processed": "iff(len(self.pareto_front) == 0, len(self.hist) == 0)",
+    "front_in_hist": "forall(0, len(self.pareto_front), lambda f: exists(0, len(self.hist), lambda h: same(self.pareto_front[f], self.hist[h])))",
+    "front_attains_the_best_aggregate": "forall(0, len(self.pareto_front), lambda f: forall(0, len(self.hist), lambda h: "
+    + agg("self.pareto_front[f]") + " >= " + agg("self.hist[h]") + "))",
+}
+R.contract(
+    "MultiObjectiveProgressTracker.is_dominated",
+    file=TRK,
+    params=dict(self="MultiObjectiveProgressTracker", current="Individual", others="list[Individual]"),
+    returns="bool",
+    requires={"evaluated": "self.problem in current.fitness_store and forall(0, len(others), lambda k: self.problem in others[k].fitness_store)"},
+    ensures={"every_other_is_strictly_better": "result == forall(0, len(others), lambda k: " + agg("others[k]") + " > " + agg("current") + ")"},
+    modifies=[],
+    props=["C12"],
+)
+R.contract(
+    "MultiObjectiveProgressTracker.evaluate",
+    file=TRK,
+    params=dict(self="MultiObjectiveProgressTracker", individuals="list[Individual]"),
+    returns="None",
+    requires={**TM_OK, "history_is_private": "not same(individuals, self.hist) and not same(self.pareto_front, self.hist) and not same(individuals, self.pareto_front)"},
+    ensures={
+        **TM_OK,
+        "history_extended": "len(self.hist) == old(len(self.hist)) + len(individuals)",
+        "existing_fitness_kept": "fitness_stores_monotone()",
+    },
+    loops={
+        0: Loop(
+            invariants={**TM_OK, "prefix_recorded": "len(self.hist) == old(len(self.hist)) + _k",
+                        "front_is_private": "not same(self.pareto_front, self.hist) and not same(individuals, self.pareto_front)",
+                        "cached": "fitness_stores_monotone()"},
+            ghost_init={"init": "", "step": "self.hist.append(ind)"},
+            modifies=["self.pareto_front", "self.hist[]", "class:SearchRecorder"],
+        ),
+        1: Loop(
+            invariants={
+                "new_front_starts_with_ind": "len(new_pareto_front) >= 1 and fresh(new_pareto_front)",
+                "new_front_evaluated": "forall(0, len(new_pareto_front), lambda f: self.problem in new_pareto_front[f].fitness_store)",
+                "new_front_in_hist_or_ind": "forall(0, len(new_pareto_front), lambda f: same(new_pareto_front[f], ind) or "
+                "exists(0, len(self.hist), lambda h: same(new_pareto_front[f], self.hist[h])))",
+                "new_front_attains_the_best": "forall(0, len(new_pareto_front), lambda f: " + agg("new_pareto_front[f]") + " >= " + agg("ind") + " and "
+                "forall(0, len(self.hist), lambda h: " + agg("new_pareto_front[f]") + " >= " + agg("self.hist[h]") + "))",
+            },
+            modifies=["new_pareto_front[]"],
+        ),
+        2: Loop(invariants={"t": "True"}, modifies=["class:SearchRecorder"]),
+    },
+    locals={"new_pareto_front": "list[Individual]"},
+    modifies=["self.pareto_front", "self.hist[]", "class:SearchRecorder", "self.evaluator.count", "self.problem.ff.fn.ncalls", "all:dict[Problem,Fitness]", "all:field:phenotype"],
+    props=["C12"],
+    note="ghost: each processed individual is appended to self.hist at the end of its iteration; the recorders are told is_best = not dominated "
+    "(for multi-objective problems ties are flagged as best: the property's reading)",
 )
